@@ -69,4 +69,14 @@ def run(ctx):
         arts_ = [common.artefact(crate, f) for f in (CERT_FN, c05.CSR_FN, c05.CRL_FN)]
         if all(a.tbs is not None for a in arts_):
             common.borrow_rules(rep, lambda: c05.check_versions(cfg, arts_, rep), "C05.", "C12.version")
+        # a leaf issued from a request carries the requested purposes or the request is refused: an unknown purpose that
+        # is silently dropped yields a leaf without the restriction the requester asked for
+        import c06
+        from interp import Interp as _I6
+        if c06.FN in crate.bodies:
+            def _wl():
+                I6 = _I6(crate)
+                I6.run_fn(c06.FN)
+                c06.whitelist(cfg, crate, crate.body(c06.FN), I6, rep, "%s|%s" % (cfg, c06.FN))
+            common.borrow_rules(rep, _wl, "C06.", "C12.csr")
         rep.sample({"rule": "C12", "cfg": cfg, "sites": sorted(want_keys.values())})
